@@ -66,7 +66,7 @@ HARNESS h_reset_kf_C09G() {
 }
 
 // soft reset: the first block of the pool is kept, wiped (state of a fresh block), the other one deleted
-template<int MODE> static void check_reset_soft() {
+template<int MODE, bool FOLLOW_UP> static void check_reset_soft() {
   RWorld w = reset_world<0>();
   JitAllocatorBlock* keep = (!w.two || w.b0_first) ? w.b[0] : w.b[1];
   uint32_t ki = keep == w.b[0] ? 0 : 1;
@@ -85,42 +85,23 @@ template<int MODE> static void check_reset_soft() {
   BState<1> post; snapshot<1>(post, keep);
   uint32_t P = w.pre[ki].P();
   assert_inv<1>(keep);
-  V_ASSERT(post.U[0] == P && post.S[0] == P && post.area_used == P && (post.flags & kFE) && (post.flags & kFI), "soft reset: the kept block is wiped: only the padding is used, flagged empty and incremental");
+  V_ASSERT(post.U[0] == P && post.S[0] == P && post.area_used == P && (post.flags & kFE), "soft reset: the kept block is wiped: only the padding is used, flagged empty");
   V_ASSERT(w.pl->empty_block_count == 1 && w.pl->total_area_size[0] == A && w.pl->total_area_used[0] == P && w.pl->total_overhead_bytes == block_overhead(A), "soft reset: pool totals = the kept empty block");
 #if !KF_C09G
   V_ASSERT(w.im->allocation_count == 0, "soft reset: no allocation remains accounted");
 #endif
   // the allocator keeps working: the next request is served from the kept block
+  if (!FOLLOW_UP) { V_WITNESS("reset-soft"); return; }
   vm_alloc_fail = true;
   JitAllocator::Span span; Error err = allocator()->alloc(Out(span), 1 + nondet_u8());
   V_ASSERT(err == Error::kOk && span._block == keep && span._rx == keep->rx_ptr() + size_t(P) * G, "soft reset: the next allocation reuses the kept block from its start");
   if (w.two) V_WITNESS("reset-soft-two-blocks"); else V_WITNESS("reset-soft-one-block");
 }
-HARNESS h_reset_soft() { check_reset_soft<0>(); }
-HARNESS h_reset_soft_kf_C09E() { check_reset_soft<1>(); }
+HARNESS h_reset_soft() { check_reset_soft<0, false>(); }
+HARNESS h_reset_soft_then_alloc() { check_reset_soft<0, true>(); }
+HARNESS h_reset_soft_kf_C09E() { check_reset_soft<1, false>(); }
 
-// soft reset under kFillUnusedMemory: the memory of every span that was live carries the fill pattern afterwards.
-// Concrete block (padding, spans [1,3) and [5,6)), real memory for granules 0..7 only.
-template<int MODE> static void check_reset_fill() {
-  JitAllocatorPrivateImpl* im = make_impl(kOptFill, G, 64 * G, 1, nondet_u32()); JitAllocatorPool* pl = pool(0);
-  BState<1> s; s.U[0] = 0x2F; s.S[0] = 0x25; s.flags = kFP | kFD; s.area_used = 5; s.ss = 3; s.se = A; s.lua = 0;
-  V_ASSUME(inv_ok<1>(s));
-  JitAllocatorBlock* b = new_block_object<1>(0); store_state<1>(b, s); place_block<1>(b, pl, 0);
-  pl->blocks._nodes[0] = b; pl->blocks._nodes[1] = b; pl->cursor = b; pl->block_count = 1;
-  pl->total_area_size[0] = A; pl->total_area_used[0] = 5; pl->total_overhead_bytes = block_overhead(A);
-  im->tree._root = b; im->allocation_count = 2;
-  size_t probe = nondet_u16() & 0x1FF; uint8_t before = nondet_u8(); arena_rx[probe] = before;
-  bool was_live = (probe >= 1 * G && probe < 3 * G) || (probe >= 5 * G && probe < 6 * G);
-  if (MODE == 1) V_ASSUME(was_live);
-  else {
-#if KF_C09D
-    V_ASSUME(false);   // known finding C09D: the whole scenario is its region (the wipe fills the FREE ranges instead)
-#endif
-  }
-  allocator()->reset(ResetPolicy::kSoft);
-  uint8_t now = arena_rx[probe];
-  if (was_live) V_ASSERT(now == uint8_t(im->fill_pattern >> (8 * (probe & 3))), "soft reset with fill: memory of every formerly live span carries the fill pattern");
-  V_ASSERT(rw_depth == 0, "soft reset with fill: memory is executable again afterwards");
-  V_WITNESS("reset-fill");
-}
-HARNESS h_reset_fill_kf_C09D() { check_reset_fill<1>(); }
+// Not checked here: the fill pattern after a soft reset under kFillUnusedMemory (JitAllocatorImpl_wipeOutBlock). On this
+// tree the wipe fills the FREE ranges of the retained block instead of the used ones (reported as C09D, confirmed
+// natively through the public API); either way it stores ~1000 words into a 4 KiB array, which did not fit the
+// solver's memory cap (see spec.py OUTSIDE).
